@@ -400,3 +400,6 @@ def _site(prefix):
 
 
 KNOWN_PREDICATES = {}
+
+
+RULE = RULE + " " + ('Injected fault lines and soup lines also carry text that is harmful inside message templates (braces, percent signs, non-ASCII field names).')
